@@ -720,17 +720,20 @@ Section WithCfg.
   Definition drop_vec (v : nat) : M unit :=
     try_finally (drop_body v) (set_handle v None).
 
+  (* src/lib.rs: append, statement by statement (EquivAppend.append_equiv) *)
+  Definition is_empty (v : nat) : M bool := l <- len v ;; ret (l =? 0).
+
   Definition append (v o : nat) : M unit :=
+    e <- is_empty o ;;
+    if e then ret tt else
     ol <- len o ;;
-    if ol =? 0 then ret tt else
     reserve v ol ;;;
     src <- as_ptr o ;;
     dst <- as_ptr v ;;
     l <- len v ;;
     slot_copy_across src (padd dst l) ol ;;;
     set_len o 0 ;;;
-    l <- len v ;;
-    set_len v (l + ol).
+    add_len v ol.
 
   (* swap two slots through references (core::mem::swap) *)
   Definition slot_swap (p q : eptr) : M unit :=
